@@ -301,7 +301,7 @@ func (e *Engine) RunHarness(prop, name, tier string, opts HarnessOpts, known map
 	if opts.LoopBound > 0 {
 		hr.LoopBound = opts.LoopBound
 	}
-	fn := e.hpkg.Func(name)
+	fn := e.harnessFunc(name)
 	if fn == nil {
 		hr.EngineErr = append(hr.EngineErr, "harness not found: "+name)
 		return hr
